@@ -204,6 +204,9 @@ func haltCause(w *World, site string) string {
 	if site == "group-tally" && w.M != nil && len(w.M.Grp.Left) > 0 {
 		return "/group-left-by-its-members"
 	}
+	if site == "group-tally" && w.M != nil && len(w.M.Grp.Extreme) > 0 {
+		return "/group-weights-beyond-decimal-range"
+	}
 	denom := w.M != nil && (w.M.Ent.Denom != w.T.Knobs.Ent.Denom || w.M.Ent.DenomChanged)
 	gov := govBelowDeposits(w) || govSpendingProposal(w)
 	// both circumstances may hold in one run (one proposal can change the denomination and pay out of
